@@ -8,6 +8,8 @@ which the property modules filter by rule prefix.
 """
 import ast
 import functools
+import os
+import time
 
 import sympy as sp
 
@@ -411,6 +413,7 @@ def check_init(model, pcls, K, d, res, out):
     ob("R02-FRAME", not mut, "__init__ does not modify the user's domain", "%d in-place store(s)" % len(mut))
 
 
+TIME_BUDGET = float(os.environ.get("PYXAB_CONFIG_BUDGET", "240"))     # seconds of path enumeration per (class, K, d)
 PATH_BUDGET = 160
 HARD_BUDGET = 4000
 
@@ -485,6 +488,7 @@ def _one_config(args):
     paths = 0
     first = True
     variants = [(True, False), (False, False)] + ([(False, True)] if d >= 2 else [])
+    t_start = time.time()
     for newlayer, aliased in variants:
         # the second (cousin) expansion is explored after a new-layer expansion only
         ts = two_step and newlayer
@@ -496,9 +500,14 @@ def _one_config(args):
             overflow = False
             for oracle, res in A.explore(lambda o: run_steps(model, pcls, K, d, newlayer, o, ts, aliased)):
                 vpaths += 1
-                if ts and vpaths > PATH_BUDGET:
+                if ts and (vpaths > PATH_BUDGET or time.time() - t_start > TIME_BUDGET / 2):
                     overflow = True
                     break
+                if vpaths > HARD_BUDGET or time.time() - t_start > TIME_BUDGET:
+                    # the step branches on so many symbolic comparisons that its outcomes cannot be enumerated: the step obligations
+                    # of this configuration stay undischarged (reported as such by the caller)
+                    raise A.Unsupported("one step of make_children branches on too many symbolic comparisons to enumerate "
+                                        "(%d paths explored in %d s for K=%s, d=%s)" % (vpaths, time.time() - t_start, K, d))
                 if first:
                     check_init(model, pcls, K, d, res, out)
                     first = False
